@@ -6,6 +6,9 @@ whole key / rebuild / point lookup / range lookup); (keys) both backends are fed
 pipeline at every maintenance site (normalize(truncate(value, prefix))); (spill) the conversion of an in-memory
 index to the disk backend emits one entry per (key, row) pair — every push of an entry is inside the loop over the
 key's row list — and does not depend on the index being UNIQUE.
+(bounds) the two arms of IndexData::range_scan adjust their bounds with the same helpers: a bound-adjusting helper of
+range_bounds (successor of a value for an inclusive end / exclusive start over multi-column keys) that the InMemory arm
+applies is also applied by the DiskBacked arm (a one-element bound [v] is an approximation for keys [v, x]).
 Does NOT decide the B+tree's own behaviour (C17: search, splits, leaf reuse) or spill thresholds."""
 import collections, re
 from ..engine.callgraph import CallGraph
@@ -32,6 +35,7 @@ DISK_CLASS = {
     BT + 'query::<impl vibesql_storage::btree::node::btree_index::BTreeIndex>::lookup': 'point',
     BT + 'query::<impl vibesql_storage::btree::node::btree_index::BTreeIndex>::multi_lookup': 'point',
     BT + 'query::<impl vibesql_storage::btree::node::btree_index::BTreeIndex>::range_scan': 'range',
+    BT + 'BTreeIndex::key_width': None,      # accessor: number of key columns, no index operation
 }
 # functions whose arms legitimately differ (reviewed)
 EXEMPT_FN = {
@@ -151,3 +155,42 @@ def run(ctx):
             ctx.finding('spill/lossy-conversion', 'spill_index_to_disk does not emit one entry per (key, row) pair for every index: an entry is pushed '
                         f'outside the loop over the key\'s row list{" under a test of `unique`" if uses_unique else ""}; rows sharing a key (NULL keys of a UNIQUE index) '
                         'disappear when the index moves to disk', f'{sp.file}:{sp.blocks[i]["t"]["l"]}')
+
+    # ------------------------------------------------------------------ bounds
+    ctx.rule('C16.bounds', 'IndexData::range_scan: every bound-adjusting helper of range_bounds (try_increment_sqlvalue, smart_increment_value, calculate_next_value) '
+             'called in the InMemory arm (closures included) is also called in the DiskBacked arm')
+    rs = [f for f in prog.fns.values() if f.unit == 'vibesql_storage' and not f.is_closure() and f.dk != 'Promoted' and re.search(r'IndexData>::range_scan$', f.nice)]
+    if len(rs) != 1:
+        from ..engine.run import AnalysisError
+        raise AnalysisError('IndexData::range_scan not found')
+    f = rs[0]
+    sw = [x for x in enum_switches(prog, f, ID) if set(x['arms']) == {'InMemory', 'DiskBacked'}][0]
+    regs = switch_arm_regions(f, sw)
+    from ..engine.symexpr import Sym
+    sy = Sym(f)
+
+    def helpers(blocks):
+        out = set()
+        for b in blocks:
+            t = f.blocks[b]['t']
+            if t['k'] == 'call':
+                cn = callee_name(t) or ''
+                if 'range_bounds::' in cn:
+                    out.add(cn.rsplit('::', 1)[1])
+                # closures handed to map / and_then in this block
+                txt = ' '.join(sy.op(a) for a in t['args'])
+                for k in re.findall(r'closure#(\d+)', txt):
+                    for c in prog.children(f):
+                        if c.nice.endswith('{closure#%s}' % k):
+                            for _i, t2 in c.calls():
+                                c2 = callee_name(t2) or ''
+                                if 'range_bounds::' in c2:
+                                    out.add(c2.rsplit('::', 1)[1])
+        return out
+    hm, hd = helpers(regs['InMemory']), helpers(regs['DiskBacked'])
+    ctx.instance('bounds/range_scan', {'rule': 'C16.bounds', 'in_memory_arm': sorted(hm), 'disk_backed_arm': sorted(hd)})
+    ctx.floor('C16.bounds bound-adjusting helpers in the InMemory arm', len(hm), 2)
+    missing = sorted(hm - hd)
+    if missing:
+        ctx.finding('range-end/IndexData::range_scan', f'IndexData::range_scan adjusts its bounds with {missing} on the in-memory backend only: over a multi-column index the '
+                    'disk-backed backend misses the keys [v, x] for an inclusive end v (WHERE k <= 30 loses k = 30 once the table has 100 000 rows)', f.loc)
